@@ -17,6 +17,11 @@ TRANSIENT = {"get_value": "shared", "try_get_value": "shared", "set_value": "exc
 FAILURE = {"borrow": "panic", "borrow_mut": "panic", "borrow_value": "panic", "borrow_value_mut": "panic", "get_value": "panic",
            "try_borrow": "Err", "try_borrow_mut": "Err", "try_borrow_value": "Err", "try_borrow_value_mut": "Err", "try_get_value": "Err",
            "set_value": "silently dropped write"}
+# callees that invoke the closure they are given before they return (lazy adapters - Iterator::map / filter / ... - do not)
+RUNS_ITS_CLOSURE = {"wrap_err_with", "with_context", "for_each", "try_for_each", "fold", "try_fold", "any", "all", "find", "find_map", "position",
+                    "retain", "retain_mut", "sort_by", "sort_by_key", "sort_unstable_by", "sort_unstable_by_key", "sort_by_cached_key", "min_by_key",
+                    "max_by_key", "min_by", "max_by", "or_insert_with", "get_or_insert_with", "resize_with", "dedup_by_key", "dedup_by",
+                    "call_once", "call_mut", "call", "catch_unwind"}
 GUARD_TY = re.compile(r"core::cell::Ref(Mut)?<")
 
 
@@ -160,6 +165,11 @@ def guard_conflicts(F, summaries=None):
                 sites[bb] = g
         if not sites:
             continue
+        closure_of = {}
+        for b_ in range(body.n):
+            for s_ in body.stmts(b_):
+                if s_[0] == "=" and not s_[1][1] and s_[2][0] == "agg" and isinstance(s_[2][1], dict) and s_[2][1].get("k") == "closure":
+                    closure_of[s_[1][0]] = s_[2][1].get("closure")
         stats["bodies"] += 1
         stats["guards"] += len(sites)
         nb = sorted(body.normal_blocks())
@@ -264,6 +274,11 @@ def guard_conflicts(F, summaries=None):
                 if merged or s_ not in seen_once:
                     seen_once.add(s_)
                     work.append(s_)
+        import os as _os
+        if _os.environ.get("MAHF_K4_DEBUG") and _os.environ["MAHF_K4_DEBUG"] in fn.key:
+            print("K4DEBUG", fn.key, "sites", sites)
+            for bb in sorted(live_at_call):
+                print("   bb%d live=%s term=%s" % (bb, sorted(live_at_call[bb]), (body.term(bb)["f"].get("key") if body.term(bb)["k"] == "call" else body.term(bb)["k"])))
         # conflicts
         for bb, t in body.calls():
             live = live_at_call.get(bb, set())
@@ -284,6 +299,19 @@ def guard_conflicts(F, summaries=None):
                     if any("mahf::state::State<" in a or "StateRegistry" in a for a in t.get("arg_tys", [])):
                         for (T, mode, how) in S.acq.get(ck, ()):
                             acqs.append((subst(T, mapping), mode, how, ck))
+            # a closure handed to a call that runs it before returning (Option / Result combinators, the error-context helpers,
+            # consuming iterator methods, the crate's own higher-order functions): what the closure acquires is acquired here
+            fd = t["f"]
+            runs_now = fd.get("self_adt") in ("core::option::Option", "core::result::Result") or fd.get("name") in RUNS_ITS_CLOSURE \
+                or (fd.get("key") or "").startswith("eyre::") or F.fn_opt(callee_key(fd)) is not None
+            if runs_now:
+                for a in t["args"]:
+                    if a[0] not in ("move", "copy") or a[1][1]:
+                        continue
+                    ck_ = closure_of.get(a[1][0])
+                    if ck_ and ck_ in S.acq:
+                        for (T, mode, how) in S.acq[ck_]:
+                            acqs.append((T, mode, how, "%s (closure run by %s)" % (ck_.rsplit("::", 1)[-1], fd.get("name"))))
             stats["acquisitions_checked"] += len(acqs)
             for (T, mode, how, via) in acqs:
                 if not resolved(T):
